@@ -81,11 +81,24 @@ def build_corpus(tier, rng):
             tw.metas = [m for m in tw.metas if m.kind != "aci"] + [EM("phf")]
             tw.groups = None
             cands.append(("systematic-phf", tw))
+    # spellings that OVERLAP (an exact spelling and a case-insensitive twin in either order, one literal on two variants): an input some
+    # variant accepts is never handed to the error function, whichever arm answers (the model's first match)
+    from props import c16
+    for j, it in enumerate(c16.overlapping()):
+        if any(v.has("default") for v in it.variants) or j % 2:
+            continue
+        ov = copy.deepcopy(it)
+        ov.metas = list(ov.metas) + [EM("pety", "PErr"), EM("pefn", "perr_a" if j % 4 else "perr::b")]
+        ov.overlap_family = True
+        cands.append(("overlap", ov))
     infos = G.classify(ID, [it for _, it in cands])
     reals = G.real_structure(ID, [it for _, it in cands])
     rejected = 0
     for (fam, it), info, real in zip(cands, infos, reals):
-        if not c01.admit(it, info):
+        if getattr(it, "overlap_family", False):
+            if info is None:
+                continue
+        elif not c01.admit(it, info):
             rejected += 1
             continue
         k = c.add_def(it, family=fam, derives=["EnumString"], info=info)
